@@ -137,4 +137,12 @@ let run (_prefix : string) (cfg : config) (parts : string list) (_src : string)
        | None -> [])
       @ ns "in" ast_in @ ns "out" ast_out
       @ [ ("prologue_ns", JI (List.fold_left (fun a s -> a + int_of_nat (ns_count s)) 0 cfg.c_prefix_stmts)) ]) in
-  hooks @ wf_part @ classes @ directives @ erase_part @ sites_part @ hygiene_part @ shapes_part @ roundtrip_part @ literals_part @ order_part
+  let tie_part =
+    on parts "semtie" (fun () ->
+      match ast_in, ast_out with
+      | Some i, Some o ->
+          let r = match sem_tie (var_prefix cfg) (plus_name cfg) i o with
+            | TieNotCore -> "not-core" | TieNoOutput -> "no-output" | TieAgree -> "agree" | TieDiffer -> "differ" in
+          [ ("semtie", JS r) ]
+      | _, _ -> []) in
+  hooks @ wf_part @ tie_part @ classes @ directives @ erase_part @ sites_part @ hygiene_part @ shapes_part @ roundtrip_part @ literals_part @ order_part
